@@ -184,7 +184,10 @@ def play_history(bins, beh, n, hist, rng):
                     p.wait()
                     rc = p.returncode
                 else:
-                    res = fx.monorail(args, env={"MONORAIL_VERIF_CRASH": point + ":1"})
+                    # (a point inside the pointer save may be passed more than once by an implementation that retries
+                    # or falls back: the crash sometimes waits for the second passage; where there is none the run completes)
+                    hit = 2 if point.startswith("ptr.") and rng.random() < 0.34 else 1
+                    res = fx.monorail(args, env={"MONORAIL_VERIF_CRASH": "%s:%d" % (point, hit)})
                     rc = res["rc"]
                     if rc != 137:
                         # the crash point was not reached: the invocation ran to the end (hook drift) - record it as completed
